@@ -364,7 +364,7 @@ def st_matrix(draw):
 
 
 SUBCHECKS = [
-    SubCheck("matrix", run_case, strategy=st_matrix, quick=900, thorough=20000,
+    SubCheck("matrix", run_case, strategy=st_matrix, quick=2400, thorough=60000,
              required_classes=tuple("cell:%s:%s" % c for c in CELLS)),
-    SubCheck("random", run_case, strategy=st_case, quick=400, thorough=15000),
+    SubCheck("random", run_case, strategy=st_case, quick=1200, thorough=40000),
 ]
